@@ -278,12 +278,22 @@ def crash_family(res, ctx, tag, kinds, n_quick, n_thorough, io_mix=(0, 0, 0, 0, 
         else:
             ops, cfg = crashcheck.workload(rng, io=io, kind=kind, nsteps=nsteps)
         items.append((i, kind, io, ops, cfg))
+    froms = {}
+    if tag == "C03":
+        # directed: a power failure persists the first part of a large record whose bytes decode as SHORT chunks (0x01...: length 257);
+        # recovery cuts it away; a short write follows; then a second crash without Close.  Whatever recovery cut away logically must
+        # not resurface behind the new record (memory-mapped files are pre-extended: the stale bytes are still in the file).
+        for io in (1, 0):
+            cfg = {"fs": 65536, "sync": 0, "bps": 0, "idx": 1, "io": io, "shards": 4}
+            ops = [engine.open_line("d", cfg), "put 6b31 x11", "sync", "put 6b32 x" + "01" * 4000, "close"]
+            froms[len(items)] = 3
+            items.append((len(items), "double-crash", io, ops, cfg))
 
     def job(it):
         i, kind, io, ops, cfg = it
         # every recovery of a memory-mapped image reads its zero extension (about a second): sampled cuts only
         cuts = cuts_quick if (ctx.quick or (io == 1 and cuts_thorough == "all")) else cuts_thorough
-        recs, err, rc = crashcheck.run_crash(ctx, ops, mode="io", cuts=cuts,
+        recs, err, rc = crashcheck.run_crash(ctx, ops, mode="io", cuts=cuts, from_op=froms.get(i, 0),
                                              dumpfiles=True, level2=level2, timeout=1800, postmerge=postmerge)
         return recs, err, rc
     results = core.parallel_map(job, items, workers=8)
